@@ -230,10 +230,12 @@ class C17(core.Check):
                     obs=dict(sequence=[items[i]['name'] for i in order][:12], state_changed=sorted(writers)[:5]))
 
     # ------------------------------------------------------------------
-    def start_server(self, d, port):
+    def start_server(self, d, port, ml=False):
         cmd = [env.PY, '-m', 'yalafi.shell', '--no-config', '--as-server', str(port), '--lt-command',
                '%s -S %s' % (env.PY, shellrun.FAKELT), '--packages', '*,cleveref', '--replace', 'r.txt',
                '--define', 'd.tex', '--lt-options', '~--disable SRVRULE --enablecategories SRVCAT']
+        if ml:
+            cmd += ['--multi-language', '--language', 'en-GB']
         planf = os.path.join(d, 'plan.json')
         if not os.path.exists(planf):
             with open(planf, 'w') as f:
@@ -270,14 +272,22 @@ class C17(core.Check):
 
     def post(self, port, src, lang, fields=None):
         data = urllib.parse.urlencode(dict({'text': src, 'language': lang}, **(fields or {}))).encode('ascii')
-        with urllib.request.urlopen('http://localhost:%d/v2/check' % port, data=data, timeout=120) as rp:
-            ms = json.loads(rp.read().decode('utf-8'))['matches']
+        try:
+            with urllib.request.urlopen('http://localhost:%d/v2/check' % port, data=data, timeout=120) as rp:
+                ms = json.loads(rp.read().decode('utf-8'))['matches']
+        except (OSError, ValueError, KeyError) as e:
+            # no answer / an error answer is an observation, too (compared with the fresh server)
+            return [('no-valid-answer', type(e).__name__, str(e)[:80])]
         return [(m['offset'], m['length'], m['message'].split(':', 1)[1]) for m in ms]
 
     def judge_server(self, case):
         from .c14 import free_port
         rnd = random.Random(case['s'])
-        T = [t for t in templates(rnd, 'q') if not t[3] and set(t[2]) <= {'pack', 'lang'}]
+        mlsrv = case['s'] % 2 == 0       # server in multi-language mode: short foreign parts are submitted on their own
+        T = [t for t in templates(rnd, 'q') if (not t[3] or mlsrv) and set(t[2]) <= {'pack', 'lang'}]
+        if mlsrv:
+            T.append(('shortpart-writer', 'wq201z \\foreignlanguage{german}{wq202z} wq203z wq204z', {}, True))
+            T.append(('shortpart-reader', 'wq205z wq206z wq207z wq208z \\foreignlanguage{german}{wq202z} wq209z', {}, True))
         rnd.shuffle(T)
         items = T[:rnd.randint(6, 10)]
         # keep writer/reader pairs together where possible
@@ -287,6 +297,8 @@ class C17(core.Check):
                 items.append(t)
         d = tempfile.mkdtemp(dir=self.tmp)
         cnt = {'fam_server': 1}
+        if mlsrv:
+            cnt['server_multi_language'] = 1
         try:
             for fn, content in FILES.items():
                 with open(os.path.join(d, fn), 'w') as f:
@@ -299,7 +311,7 @@ class C17(core.Check):
             base_argv = []
             for k, (name, src, opts, ml) in enumerate(items):
                 port = free_port()
-                srv = self.start_server(d, port)
+                srv = self.start_server(d, port, mlsrv)
                 if srv is None:
                     return dict(ok=True, nt=False, key=None, cnt={'server_not_up': 1}, obs=None,
                                 harness_error='server did not come up')
@@ -310,7 +322,7 @@ class C17(core.Check):
                     srv.wait(timeout=10)
                 base_argv.append(self.lt_calls(d, port))
             port = free_port()
-            srv = self.start_server(d, port)
+            srv = self.start_server(d, port, mlsrv)
             if srv is None:
                 return dict(ok=True, nt=False, key=None, cnt={'server_not_up': 1}, obs=None,
                             harness_error='server did not come up')
